@@ -35,6 +35,7 @@ class Constraint:
     facts: frozenset = frozenset()  # (text, polarity) facts holding where the refusing test is evaluated
     from_fact: bool = False  # a conjunct that reached the refusal as a dominating branch fact, not in the test itself
     mirror: bool = False  # the same comparison read from its right operand
+    test_id: int = -1  # CFG node of the refusing test (for must-pass-through queries)
 
     def show(self) -> str:
         v = self.value if self.value is not UNKNOWN else self.value_text
@@ -185,6 +186,7 @@ def refusal_constraints(ctx: Ctx, fi: FuncInfo, accept_return: Iterable[str] = (
         here = fx.get(n.id, frozenset())
         for c in atoms(ctx, fi, test, pol, env):
             c.facts = here
+            c.test_id = n.id
             out.append(c)
         # `if a and b: raise`, `if a: if b: raise` and `if not a: return ...; if b: raise`
         # are one refusal: the conjuncts that arrive as branch facts count as conjuncts
@@ -304,6 +306,23 @@ def has(cons: list[Constraint], subject: str | None, op: str, value: Any = UNKNO
         if all(p is not None for p in parts):
             return parts[0]
     return None
+
+
+def has_all(cons: list[Constraint], subject: str, op: str, value: Any = UNKNOWN) -> list[Constraint]:
+    """Every refusal (in the function's own tests) that states the constraint, under any of its spellings."""
+    own = [c for c in cons if not c.from_fact]
+    out = []
+    for c in own:
+        if _has([c], subject, op, value) is not None or any(_has([c], s_, o_, v_) is not None for s_, o_, v_ in _aliases(subject, op, value)):
+            out.append(c)
+    return out
+
+
+def refused_on_every_path(ctx: Ctx, fi: FuncInfo, subject: str, op: str, value: Any = UNKNOWN) -> bool:
+    """Some refusal of `subject op value` lies on every path to a normal return of fi."""
+    cs = refusal_constraints(ctx, fi)
+    ids = [c.test_id for c in has_all(cs, subject, op, value) if c.test_id >= 0]
+    return bool(ids) and ctx.cfg(fi).must_pass(ids) is None
 
 
 def _has(cons: list[Constraint], subject: str | None, op: str, value: Any = UNKNOWN, subject_contains: str | None = None) -> Constraint | None:
